@@ -693,6 +693,66 @@ func requiredDecisionRules(c *core.Ctx, r *core.Report, rule string, fns []*ssa.
 			}
 		}
 	}
+	// a decision handed to a helper as an argument is taken there: the helper's parameter is the decision value
+	handedOn := func(v ssa.Value, rf ssa.Instruction) (*ssa.Function, *ssa.Parameter) {
+		ci, ok := rf.(ssa.CallInstruction)
+		if !ok {
+			return nil, nil
+		}
+		cal := ci.Common().StaticCallee()
+		if cal == nil || !c.InScope(cal) || cal.Blocks == nil {
+			return nil, nil
+		}
+		for i, a := range ci.Common().Args {
+			if a == v && i < len(cal.Params) {
+				return cal, cal.Params[i]
+			}
+		}
+		return nil, nil
+	}
+	for i := 0; i < len(decisions) && i < 64; i++ {
+		d := decisions[i]
+		if d.v.Referrers() == nil {
+			continue
+		}
+		for _, rf := range *d.v.Referrers() {
+			if cal, p := handedOn(d.v, rf); cal != nil {
+				decisions = append(decisions, decision{cal, p, p.Pos()})
+			}
+		}
+	}
+	injState := 0 // 0 unknown, 1 the inject table holds, 2 it does not
+	injectDecides := func(fn *ssa.Function) bool {
+		inj := c.Roles().PropertyInject
+		if inj == nil {
+			return false
+		}
+		part := false
+		for _, g := range c.StaticCalleesInPkg(inj, nil) {
+			part = part || g == fn
+		}
+		if !part || fn == inj {
+			return false
+		}
+		for _, cl := range c.Callers(fn) {
+			in := false
+			for _, g := range c.StaticCalleesInPkg(inj, nil) {
+				in = in || g == core.TopLevel(cl)
+			}
+			if !in {
+				return false
+			}
+		}
+		if injState == 0 {
+			injState = 2
+			if rs, _, und := injectTable(c, listLen(c)); und == "" {
+				if rr := rs["nothing-to-inject"]; rr != nil && len(rr.bad) == 0 && rr.runs > 0 {
+					injState = 1
+				}
+			}
+		}
+		return injState == 1
+	}
 	for _, d := range decisions {
 		fn, call := d.fn, d.v
 		{
@@ -703,11 +763,21 @@ func requiredDecisionRules(c *core.Ctx, r *core.Report, rule string, fns []*ssa.
 					if _, isDbg := rf.(*ssa.DebugRef); isDbg {
 						continue
 					}
+					if cal, _ := handedOn(call, rf); cal != nil {
+						continue // decided in the helper (its parameter is a decision value of its own)
+					}
 					r.Undecided(rule, "IsRequired-use@"+core.FnName(fn), c.Pos(d.pos), "IsRequired() result is used other than as a branch condition")
 					continue
 				}
 				n++
 				cons := fmt.Sprintf("IsRequired@%s#%d", core.FnName(fn), branchOrdinal(fn, iff))
+				if _, isParam := call.(*ssa.Parameter); isParam && injectDecides(fn) {
+					// a helper of Property.Inject that is handed the decision: what Inject does with a required and
+					// with an optional point that nothing is left for is its table's row, whatever the helper's shape
+					r.Hold(rule, cons+":required=>error", c.Pos(iff.Cond.Pos()), "decided by the inject table (row nothing-to-inject: error iff required, nothing written either way)")
+					r.Hold(rule, cons+":optional=>skip", c.Pos(iff.Cond.Pos()), "decided by the inject table (row nothing-to-inject)")
+					continue
+				}
 				tEdge, fEdge := iff.Block().Succs[0], iff.Block().Succs[1]
 				// true edge: only error returns, never the loop again
 				okTrue, nRet := true, 0
